@@ -1,6 +1,7 @@
 package sim
 
 import (
+	"strings"
 	"fmt"
 	"sort"
 	"time"
@@ -310,4 +311,38 @@ func (p *Plan) baseRTT() time.Duration {
 		}
 	}
 	return m
+}
+
+// plainDeleteLosses: the instants at which a graceful shutdown deleted another party's live record of the
+// group through a store without revision-checked delete (the known finding of C01: look and delete are two
+// store operations there). What follows - a successor claiming without a record, a third instance creating
+// the key next to it - is that finding's consequence, not a defect of its own.
+func (tr *Trace) plainDeleteLosses(group string) []time.Duration {
+	if !tr.Plan.PlainDelete {
+		return nil
+	}
+	var out []time.Duration
+	for _, op := range tr.Ops {
+		if op.Obj >= 0 && op.Kind == OpDelete && op.Applied && op.InStopCtxDelete && op.Key == group && op.PrevLive != nil && op.PrevLive.Actor != op.Actor {
+			out = append(out, op.ApplyT)
+		}
+	}
+	return out
+}
+
+// markPlainDeleteConsequences gives the violations that fall into the aftermath of such a loss (until the
+// record's lifetime plus the detection bound have passed) a signature of their own.
+func (tr *Trace) markPlainDeleteConsequences(v *Verdict, prop string) {
+	p := tr.Plan
+	for _, g := range p.Groups() {
+		for _, tk := range tr.plainDeleteLosses(g) {
+			until := tk + p.TTL + p.H + 2*p.HeartbeatTimeout() + 2*p.MaxRTT()
+			for i := range v.Viols {
+				if v.Viols[i].At >= tk && v.Viols[i].At <= until && !strings.Contains(v.Viols[i].Sig, "(consequence of known finding C01)") {
+					v.Viols[i].Msg = v.Viols[i].Sig + ": " + v.Viols[i].Msg
+					v.Viols[i].Sig = prop + " aftermath of a graceful shutdown that deleted the successor's record through a store without revision-checked delete (consequence of known finding C01)"
+				}
+			}
+		}
+	}
 }
